@@ -37,7 +37,7 @@ def confirm(d):
         target = "pkg"
         for f in demos:
             src = open(os.path.join(d, f)).read()
-            if "\npackage main" in "\n" + src or "./cmd" in src:
+            if "\npackage main" in "\n" + src:
                 target = "cmd"
             dst = os.path.join(wt, target, "zz_" + os.path.basename(d).replace("-", "_") + "_" + f)
             open(dst, "w").write(src)
